@@ -232,3 +232,30 @@ def oracle(seed, tier):
     finally:
         shutil.rmtree(tmpdir, ignore_errors=True)
     return res
+
+
+def oracle_c11_realscale(seed, tier):
+    """C11 at real scale: stream-upload buffers against max(multipart_chunksize, multipart_threshold)."""
+    from s3transfer.futures import NonThreadedExecutor
+    from s3transfer.manager import TransferConfig, TransferManager
+    res = OracleResult('C11')
+    for thr, chunk, size in [(1 * MiB, 1 * MiB, 6 * MiB + 5), (6 * MiB, 6 * MiB, 13 * MiB), (8 * MiB, 2 * MiB, 9 * MiB)]:
+        data = (bytes(range(256)) * (size // 256 + 1))[:size]
+        fake = FakeS3()
+        with TransferManager(fake, TransferConfig(multipart_threshold=thr, multipart_chunksize=chunk),
+                             executor_cls=NonThreadedExecutor) as tm:
+            tm.upload(ShortReader(data, []), 'b', 'k').result()
+        res.evaluations += 1
+        sizes = [len(v[1]) for up in fake.uploads.values() for v in up['parts'].values()]
+        bound = max(thr, chunk)
+        res.nontrivial.add((thr, chunk, size))
+        if sizes and max(sizes) > bound:
+            res.violation('upload-buffer-size:adjusted-chunk-above-config',
+                          {'multipart_threshold': thr, 'multipart_chunksize': chunk, 'stream_len': size,
+                           'largest_part_buffer': max(sizes)},
+                          'stream upload buffers of %d bytes with max(multipart_chunksize, multipart_threshold)=%d '
+                          '(the part size is adjusted up to the 5 MiB minimum)' % (max(sizes), bound))
+        if fake.objects.get(('b', 'k')) != data:
+            res.violation('real-scale-bytes', {'size': size}, 'object differs')
+    res.samples.append({'multipart_threshold': 1 * MiB, 'multipart_chunksize': 1 * MiB, 'stream_len': 6 * MiB + 5})
+    return res
